@@ -100,10 +100,33 @@ def sourceTypes (P : PLang) (ops : List OperatorDecl) (w : Wf) :
               else acc) acc
         sourceTypes P ops w s3 rest acc
 
+/-- the type each source object carries after a `fix()` traversal: a source visited several times is re-normalised
+on every visit, the last visit wins (children are visited function part first, then the argument) -/
+def srcTypesOf : TExpr → List (Nat × Term) → List (Nat × Term)
+  | .src i _ t, acc => (acc.filter (fun p => p.1 != i)) ++ [(i, t)]
+  | .op _ _, acc => acc
+  | .app f x _, acc => srcTypesOf x (srcTypesOf f acc)
+  | .shared _ e, acc => srcTypesOf e acc
+
+/-- the expression object of each shared key after a `fix()` traversal (last visit wins) -/
+def sharedOf : TExpr → List (Nat × TExpr) → List (Nat × TExpr)
+  | .src _ _ _, acc => acc
+  | .op _ _, acc => acc
+  | .app f x _, acc => sharedOf x (sharedOf f acc)
+  | .shared k e, acc => (((sharedOf e acc).filter (fun p => p.1 != k))) ++ [(k, .shared k e)]
+
+/-- give every occurrence of a source the type its object currently carries -/
+def setSrcTypes (tbl : List (Nat × Term)) : TExpr → TExpr
+  | .src i l t => .src i l (((tbl.find? (fun p => p.1 == i)).map (·.2)).getD t)
+  | .op n t => .op n t
+  | .app f x t => .app (setSrcTypes tbl f) (setSrcTypes tbl x) t
+  | .shared k e => .shared k (setSrcTypes tbl e)
+
 structure WState where
   xs : XState := {}
   exprs : List (Nat × TExpr) := []            -- resource ↦ expression
   indirection : List (Nat × Nat) := []        -- (source id of the stand-in source, resource it stands for)
+  srcTypes : List (Nat × Term) := []          -- source id ↦ the type its object carries since the last `fix()` that visited it
   deriving Repr, Inhabited
 
 def WState.expr? (s : WState) (r : Nat) : Option TExpr := (s.exprs.find? (fun p => p.1 == r)).map (·.2)
@@ -133,13 +156,19 @@ def wfExpr (P : PLang) (ops : List OperatorDecl) (w : Wf) (passthrough : Bool) :
             (a.inputs.zip inputExprs).foldlM (fun (acc : WState × List TExpr) (p : Nat × TExpr) =>
               if w.sources.contains p.1 then .ok (acc.1, acc.2 ++ [p.2]) else
               let (xs1, src) := mkSourceT acc.1.xs
-              match fixExprCore P.types xs1.store p.2 with
+              -- `e.fix()`: the producer's expression object is fixed (and its node types normalised) now
+              match fixExpr P.types xs1.store p.2 with
               | .error err => Except.error (.typing err)
-              | .ok (σ2, _) =>
+              | .ok (σ2, e2) =>
                 let sid := match src with
                   | .src id _ _ => id
                   | _ => 0
-                .ok ({ acc.1 with xs := { xs1 with store := σ2 }, indirection := acc.1.indirection ++ [(sid, p.1)] }, acc.2 ++ [src])) (s1, [])
+                let ws' : WState :=
+                  { xs := { xs1 with store := σ2 }
+                    exprs := acc.1.exprs.map (fun q => if q.1 == p.1 then (q.1, e2) else q)
+                    srcTypes := srcTypesOf e2 acc.1.srcTypes
+                    indirection := acc.1.indirection ++ [(sid, p.1)] }
+                .ok (ws', acc.2 ++ [src])) (s1, [])
           match r2 with
           | .error e => .error e
           | .ok (s2, inputs) =>
@@ -198,10 +227,17 @@ def addWorkflow (P : PLang) (G : GLang) (ops : List OperatorDecl) (c : GCfg) (pa
       match wfExpr P ops w passthrough (w.apps.length + 2) { xs := xs1, exprs := srcExprs } tgt with
       | .error e => .error e
       | .ok (ws, te) =>
-        match fixExprCore P.types ws.xs.store te with
+        match fixExpr P.types ws.xs.store te with
         | .error err => .error (.typing err)
-        | .ok (σf, _) =>
-          let exprs := ws.exprs.map (fun p => (p.1, normExpr σf p.2))
+        | .ok (σf, te') =>
+          -- the expression objects reachable from the target were fixed just now (last visit wins); the others keep
+          -- what an earlier `e.fix()` left; every source occurrence reads the type its object carries now
+          let fixedNow := sharedOf te' []
+          let srcTbl := srcTypesOf te' ws.srcTypes
+          let exprs := ws.exprs.map (fun p =>
+            let e := ((fixedNow.find? (fun q => q.1 == p.1)).map (·.2)).getD p.2
+            (p.1, setSrcTypes srcTbl e))
+          let G := { G with store := σf }
           let g0 := initGraph G c
           match wfNode G c w root exprs (w.apps.length + 2) g0 tgt with
           | .error e => .error e
